@@ -1,0 +1,61 @@
+//go:build verif
+// +build verif
+
+// Machine-checked contracts for this package (checked by /verif/govc).
+// Comment-only: no executable code.
+
+package events
+
+//@ import sdk "github.com/cosmos/cosmos-sdk/types"
+//@ import abci "github.com/tendermint/tendermint/abci/types"
+//@ import dtypes "github.com/ovrclk/akash/x/deployment/types"
+//@ import mtypes "github.com/ovrclk/akash/x/market/types"
+//@ import ptypes "github.com/ovrclk/akash/x/provider/types"
+//@ import atypes "github.com/ovrclk/akash/x/audit/types"
+
+// an ABCI event as delivered by the node: its type and its (key, value) attribute list; an event emitted by a module
+// as sdk.Event e reaches the provider as an ABCI event with the same type and attribute list (A-TM)
+//@ spec abType(e: abci.Event): str
+//@ spec abAttrs(e: abci.Event): []sdk.Attribute
+//@ extern sdk.StringifyEvent(e)
+//@   pure
+//@   ensures result.Type == abType(e) && result.Attributes == abAttrs(e)
+
+// C16: every marketplace event decodes through the provider's parser to the typed event that was emitted
+//@ func processEvent
+//@   ensures [k1] forall id: dtypes.DeploymentID, v: str {validBech32(id.Owner), hexEnc(v)} :: old(abType(bev) == "akash.v1" && attrHas(abAttrs(bev), "module") && attrVal(abAttrs(bev), "module") == "deployment" && attrHas(abAttrs(bev), "action") && attrVal(abAttrs(bev), "action") == "deployment-created" && carriesDID(abAttrs(bev), id) && canonicalAddr(id.Owner) && attrHas(abAttrs(bev), "version") && attrVal(abAttrs(bev), "version") == hexEnc(v)) ==>
+//@        result1 && typeis(result0, dtypes.EventDeploymentCreated) && unbox(result0, dtypes.EventDeploymentCreated).ID == id && unbox(result0, dtypes.EventDeploymentCreated).Version == v
+//@   ensures [k2] forall id: dtypes.DeploymentID, v: str {validBech32(id.Owner), hexEnc(v)} :: old(abType(bev) == "akash.v1" && attrHas(abAttrs(bev), "module") && attrVal(abAttrs(bev), "module") == "deployment" && attrHas(abAttrs(bev), "action") && attrVal(abAttrs(bev), "action") == "deployment-updated" && carriesDID(abAttrs(bev), id) && canonicalAddr(id.Owner) && attrHas(abAttrs(bev), "version") && attrVal(abAttrs(bev), "version") == hexEnc(v)) ==>
+//@        result1 && typeis(result0, dtypes.EventDeploymentUpdated) && unbox(result0, dtypes.EventDeploymentUpdated).ID == id && unbox(result0, dtypes.EventDeploymentUpdated).Version == v
+//@   ensures [k3] forall id: dtypes.DeploymentID {validBech32(id.Owner)} :: old(abType(bev) == "akash.v1" && attrHas(abAttrs(bev), "module") && attrVal(abAttrs(bev), "module") == "deployment" && attrHas(abAttrs(bev), "action") && attrVal(abAttrs(bev), "action") == "deployment-closed" && carriesDID(abAttrs(bev), id) && canonicalAddr(id.Owner)) ==>
+//@        result1 && typeis(result0, dtypes.EventDeploymentClosed) && unbox(result0, dtypes.EventDeploymentClosed).ID == id
+//@   ensures [k4] forall id: dtypes.GroupID {validBech32(id.Owner)} :: old(abType(bev) == "akash.v1" && attrHas(abAttrs(bev), "module") && attrVal(abAttrs(bev), "module") == "deployment" && attrHas(abAttrs(bev), "action") && attrVal(abAttrs(bev), "action") == "group-closed" && carriesGID(abAttrs(bev), id) && canonicalAddr(id.Owner)) ==>
+//@        result1 && typeis(result0, dtypes.EventGroupClosed) && unbox(result0, dtypes.EventGroupClosed).ID == id
+//@   ensures [k5] forall id: dtypes.GroupID {validBech32(id.Owner)} :: old(abType(bev) == "akash.v1" && attrHas(abAttrs(bev), "module") && attrVal(abAttrs(bev), "module") == "deployment" && attrHas(abAttrs(bev), "action") && attrVal(abAttrs(bev), "action") == "group-paused" && carriesGID(abAttrs(bev), id) && canonicalAddr(id.Owner)) ==>
+//@        result1 && typeis(result0, dtypes.EventGroupPaused) && unbox(result0, dtypes.EventGroupPaused).ID == id
+//@   ensures [k6] forall id: dtypes.GroupID {validBech32(id.Owner)} :: old(abType(bev) == "akash.v1" && attrHas(abAttrs(bev), "module") && attrVal(abAttrs(bev), "module") == "deployment" && attrHas(abAttrs(bev), "action") && attrVal(abAttrs(bev), "action") == "group-started" && carriesGID(abAttrs(bev), id) && canonicalAddr(id.Owner)) ==>
+//@        result1 && typeis(result0, dtypes.EventGroupStarted) && unbox(result0, dtypes.EventGroupStarted).ID == id
+//@   ensures [k7] forall id: mtypes.OrderID {validBech32(id.Owner)} :: old(abType(bev) == "akash.v1" && attrHas(abAttrs(bev), "module") && attrVal(abAttrs(bev), "module") == "market" && attrHas(abAttrs(bev), "action") && attrVal(abAttrs(bev), "action") == "order-created" && carriesOID(abAttrs(bev), id) && canonicalAddr(id.Owner)) ==>
+//@        result1 && typeis(result0, mtypes.EventOrderCreated) && unbox(result0, mtypes.EventOrderCreated).ID == id
+//@   ensures [k8] forall id: mtypes.OrderID {validBech32(id.Owner)} :: old(abType(bev) == "akash.v1" && attrHas(abAttrs(bev), "module") && attrVal(abAttrs(bev), "module") == "market" && attrHas(abAttrs(bev), "action") && attrVal(abAttrs(bev), "action") == "order-closed" && carriesOID(abAttrs(bev), id) && canonicalAddr(id.Owner)) ==>
+//@        result1 && typeis(result0, mtypes.EventOrderClosed) && unbox(result0, mtypes.EventOrderClosed).ID == id
+//@   ensures [k9] forall id: mtypes.BidID, p: sdk.Coin {validBech32(id.Owner), validDenom(p.Denom)} :: old(abType(bev) == "akash.v1" && attrHas(abAttrs(bev), "module") && attrVal(abAttrs(bev), "module") == "market" && attrHas(abAttrs(bev), "action") && attrVal(abAttrs(bev), "action") == "bid-created" && carriesBID(abAttrs(bev), id) && carriesPrice(abAttrs(bev), p) && canonicalAddr(id.Owner) && canonicalAddr(id.Provider) && validDenom(p.Denom) && p.Amount >= 0) ==>
+//@        result1 && typeis(result0, mtypes.EventBidCreated) && unbox(result0, mtypes.EventBidCreated).ID == id && unbox(result0, mtypes.EventBidCreated).Price == p
+//@   ensures [k10] forall id: mtypes.BidID, p: sdk.Coin {validBech32(id.Owner), validDenom(p.Denom)} :: old(abType(bev) == "akash.v1" && attrHas(abAttrs(bev), "module") && attrVal(abAttrs(bev), "module") == "market" && attrHas(abAttrs(bev), "action") && attrVal(abAttrs(bev), "action") == "bid-closed" && carriesBID(abAttrs(bev), id) && carriesPrice(abAttrs(bev), p) && canonicalAddr(id.Owner) && canonicalAddr(id.Provider) && validDenom(p.Denom) && p.Amount >= 0) ==>
+//@        result1 && typeis(result0, mtypes.EventBidClosed) && unbox(result0, mtypes.EventBidClosed).ID == id && unbox(result0, mtypes.EventBidClosed).Price == p
+//@   ensures [k11] forall id: mtypes.LeaseID, p: sdk.Coin {validBech32(id.Owner), validDenom(p.Denom)} :: old(abType(bev) == "akash.v1" && attrHas(abAttrs(bev), "module") && attrVal(abAttrs(bev), "module") == "market" && attrHas(abAttrs(bev), "action") && attrVal(abAttrs(bev), "action") == "lease-created" && carriesLID(abAttrs(bev), id) && carriesPrice(abAttrs(bev), p) && canonicalAddr(id.Owner) && canonicalAddr(id.Provider) && validDenom(p.Denom) && p.Amount >= 0) ==>
+//@        result1 && typeis(result0, mtypes.EventLeaseCreated) && unbox(result0, mtypes.EventLeaseCreated).ID == id && unbox(result0, mtypes.EventLeaseCreated).Price == p
+//@   ensures [k12] forall id: mtypes.LeaseID, p: sdk.Coin {validBech32(id.Owner), validDenom(p.Denom)} :: old(abType(bev) == "akash.v1" && attrHas(abAttrs(bev), "module") && attrVal(abAttrs(bev), "module") == "market" && attrHas(abAttrs(bev), "action") && attrVal(abAttrs(bev), "action") == "lease-closed" && carriesLID(abAttrs(bev), id) && carriesPrice(abAttrs(bev), p) && canonicalAddr(id.Owner) && canonicalAddr(id.Provider) && validDenom(p.Denom) && p.Amount >= 0) ==>
+//@        result1 && typeis(result0, mtypes.EventLeaseClosed) && unbox(result0, mtypes.EventLeaseClosed).ID == id && unbox(result0, mtypes.EventLeaseClosed).Price == p
+//@   ensures [k13] forall a: str {bech32(a)} :: old(abType(bev) == "akash.v1" && attrHas(abAttrs(bev), "module") && attrVal(abAttrs(bev), "module") == "provider" && attrHas(abAttrs(bev), "action") && attrVal(abAttrs(bev), "action") == "provider-created" && carriesProv(abAttrs(bev), a)) ==>
+//@        result1 && typeis(result0, ptypes.EventProviderCreated) && unbox(result0, ptypes.EventProviderCreated).Owner == a
+//@   ensures [k14] forall a: str {bech32(a)} :: old(abType(bev) == "akash.v1" && attrHas(abAttrs(bev), "module") && attrVal(abAttrs(bev), "module") == "provider" && attrHas(abAttrs(bev), "action") && attrVal(abAttrs(bev), "action") == "provider-updated" && carriesProv(abAttrs(bev), a)) ==>
+//@        result1 && typeis(result0, ptypes.EventProviderUpdated) && unbox(result0, ptypes.EventProviderUpdated).Owner == a
+//@   ensures [k15] forall a: str {bech32(a)} :: old(abType(bev) == "akash.v1" && attrHas(abAttrs(bev), "module") && attrVal(abAttrs(bev), "module") == "provider" && attrHas(abAttrs(bev), "action") && attrVal(abAttrs(bev), "action") == "provider-deleted" && carriesProv(abAttrs(bev), a)) ==>
+//@        result1 && typeis(result0, ptypes.EventProviderDeleted) && unbox(result0, ptypes.EventProviderDeleted).Owner == a
+//@   ensures [k16] forall o: str, a: str {bech32(o), bech32(a)} :: old(abType(bev) == "akash.v1" && attrHas(abAttrs(bev), "module") && attrVal(abAttrs(bev), "module") == "audit" && attrHas(abAttrs(bev), "action") && attrVal(abAttrs(bev), "action") == "audit-trusted-auditor-created" && carriesAudit(abAttrs(bev), o, a)) ==>
+//@        result1 && typeis(result0, atypes.EventTrustedAuditorCreated) && unbox(unbox(result0, atypes.EventTrustedAuditorCreated).Owner, sdk.AccAddress) == o && unbox(unbox(result0, atypes.EventTrustedAuditorCreated).Auditor, sdk.AccAddress) == a
+//@   ensures [k17] forall o: str, a: str {bech32(o), bech32(a)} :: old(abType(bev) == "akash.v1" && attrHas(abAttrs(bev), "module") && attrVal(abAttrs(bev), "module") == "audit" && attrHas(abAttrs(bev), "action") && attrVal(abAttrs(bev), "action") == "audit-trusted-auditor-deleted" && carriesAudit(abAttrs(bev), o, a)) ==>
+//@        result1 && typeis(result0, atypes.EventTrustedAuditorDeleted) && unbox(unbox(result0, atypes.EventTrustedAuditorDeleted).Owner, sdk.AccAddress) == o && unbox(unbox(result0, atypes.EventTrustedAuditorDeleted).Auditor, sdk.AccAddress) == a
+
+//@ property C16 := processEvent#*
